@@ -22,6 +22,7 @@ func checkC15(c *Ctx, r *Report) {
 	}
 	c15ReadMsg(c, r)
 	c15Out(c, r)
+	freshEnvelope(c, r, "C15.R5.fresh-envelope")
 	borrow(c, r, c12R1, "C12.R1.stream-read", "C15.R1.stream-read", 3, "an envelope is read from the stream as a 2-octet length and then exactly that many octets (io.ReadFull), however the sender's writes were split", nil, "an envelope that arrives in more than one segment is cut and the transfer fails or loses records")
 	c15FreshTime(c, r, "C15.R4.fresh-time")
 	c15IxfrUpToDate(c, r, "C15.R2.ixfr-up-to-date")
